@@ -3,6 +3,7 @@ CONSTANTS MaxLen = 2
  Files = {"f1", "f2"}
  AllowAbsent = TRUE
  MaxRunsGrow = 0
+ Part = 9
  Emit = TRUE
 SPECIFICATION Spec
 INVARIANTS PointwiseBest OrderIndependent Idempotent EmitCase
